@@ -72,10 +72,11 @@ def gen(run):
         for _ in range(rng.randrange(1, 9)):
             k = rng.randrange(10)
             ts = "-" if rng.random() < 0.25 else "%d.%d" % (base + rng.randrange(0, 4), rng.randrange(0, min(r, 3)))
+            item = rng.random() < 0.3          # directly built item (non-generic add_* overload)
             if k < 5:
-                ops.append("q:%s:%d:%d" % (ts, th, rng.randrange(2)))
+                ops.append("%s:%s:%d:%d" % ("Q" if item else "q", ts, th, rng.randrange(2)))
             elif k < 9:
-                ops.append("m:%s:%d:%d" % (ts, me, rng.randrange(2)))
+                ops.append("%s:%s:%d:%d" % ("M" if item else "m", ts, me, rng.randrange(2)))
             else:
                 ops.append("c")
         L.append("ts blk %d %s" % (r, " ".join(ops)))
